@@ -114,3 +114,22 @@ PROPS["C04"]["mir"].append(ob("close_active_order_c04", "ob_storage", "close_act
 PROPS["C11"]["mir"] += [ob("worker_survives_io", "ob_storage", "worker_survives_io"), ob("close_active_order_c11", "ob_storage", "close_active_order")]
 PROPS["C12"]["mir"] += [ob("close_active_order", "ob_storage", "close_active_order"), ob("explicit_fsync", "ob_storage", "explicit_fsync")]
 PROPS["C13"]["mir"].append(ob("worker_survives_io_c13", "ob_storage", "worker_survives_io"))
+
+PROPS["C04"]["mir"].append(ob("hier_pop_push", "ob_hier", "hier_no_false_negative"))
+
+PROPS["C10"] = {
+    "level": "model_checking",
+    "kani": [],
+    "mir": [ob("hier_no_false_negative", "ob_hier", "hier_no_false_negative", kwargs={"n": 4}, thorough_kwargs={"n": 5, "groups": (2, 3, 4)})],
+    "assumptions": COMMON_M + ["filters are modelled as bit-sets over 3 abstract keys; checked_add_assign either merges (union) or refuses; "
+                               "a child's filter is a superset of the keys it stores (established by C10 bloom/range kernels)",
+                               "outside: aHash values, real bloom sizes"],
+}
+
+PROPS["C15"] = {
+    "level": "model_checking",
+    "kani": [],
+    "mir": [ob("len_counts_live", "ob_hier", "len_counts_live"),
+            ob("push_counts", "ob_index", "push_step", kwargs={"L": 3})],
+    "assumptions": COMMON_M + ["outside: disk_used, corrupted_blobs_count, next_blob_id after restart"],
+}
